@@ -36,6 +36,9 @@ def run(ctx):
                                        "tables", "atomics.json")))
     ctx.step(common.atomic_floors, ctx, "C07.orders", sorted(atab["fields"]), floor=80)
     ctx.step(mutable_state, ctx)
+    ctx.step(common.handle_deref_lifetime, ctx, "C07.lifetime",
+             ["gmlc::libguarded::" + c for c in ("guarded", "guarded_opt", "shared_guarded", "shared_guarded_opt", "ordered_guarded",
+                                                 "deferred_guarded", "atomic_guarded", "lr_guarded", "cow_guarded")], floor=4)
     ctx.step(c19.orders, ctx, "C07.tripline")
     ctx.step(c12.publish, ctx, "C07.publish", False)
     ctx.step(c05.register, ctx, "C07.publish-log", False, True)
